@@ -205,28 +205,39 @@ def cookedRoot (f : Forest) : Nat → CDie → CDie
 
 def attrShouldBeIntegrated (name : Nat) : Bool := name != DW_AT_sibling && name != DW_AT_declaration
 
-/-- `attribute_producer` in cooked mode.  `next` is the LIFO list of DIEs scheduled
-    (`m_next`), `seen` the attribute names yielded so far; `secondary` is set once the first
-    DIE is done.  Yields (DIE offset the attribute sits on, attribute). -/
-def attrsCookedGo (f : Forest) : Nat → List DAttr → Nat → Bool → List Nat → List Nat → List (Nat × DAttr)
-  | 0, _, _, _, _, _ => []
-  | fuel + 1, [], _, _, next, seen =>
+/-- `attribute_producer::schedule`: a specification goes on top of the stack (the end of `next`),
+    an abstract origin underneath everything the current DIE has scheduled (position `base`), so
+    that the specification is looked through first whatever the stored order -/
+def schedule (next : List Nat) (base : Nat) (a : DAttr) : List Nat :=
+  match a.ref with
+  | none => next
+  | some t =>
+    if a.name == DW_AT_specification then next ++ [t]
+    else if a.name == DW_AT_abstract_origin then next.take base ++ [t] ++ next.drop base
+    else next
+
+/-- `attribute_producer` in cooked mode.  `next` is the stack of DIEs scheduled (`m_next`, top
+    last), `base` its size when the current DIE was taken (`m_base`), `seen` the attribute names
+    yielded so far; `secondary` is set once the first DIE is done.  Yields (DIE offset the
+    attribute sits on, attribute). -/
+def attrsCookedGo (f : Forest) : Nat → List DAttr → Nat → Bool → List Nat → Nat → List Nat → List (Nat × DAttr)
+  | 0, _, _, _, _, _, _ => []
+  | fuel + 1, [], _, _, next, _, seen =>
     -- current DIE exhausted: take the most recently scheduled one
     match next.reverse with
     | [] => []
     | n :: restRev =>
       match findDie f n with
-      | some d => attrsCookedGo f fuel d.attrs d.off true restRev.reverse seen
+      | some d => attrsCookedGo f fuel d.attrs d.off true restRev.reverse restRev.length seen
       | none => []
-  | fuel + 1, a :: as, cur, secondary, next, seen =>
-    let next := if a.name == DW_AT_specification || a.name == DW_AT_abstract_origin then
-                  (match a.ref with | some t => next ++ [t] | none => next) else next
-    if secondary && !attrShouldBeIntegrated a.name then attrsCookedGo f fuel as cur secondary next seen
-    else if seen.contains a.name then attrsCookedGo f fuel as cur secondary next seen
-    else (cur, a) :: attrsCookedGo f fuel as cur secondary next (seen ++ [a.name])
+  | fuel + 1, a :: as, cur, secondary, next, base, seen =>
+    let next := schedule next base a
+    if secondary && !attrShouldBeIntegrated a.name then attrsCookedGo f fuel as cur secondary next base seen
+    else if seen.contains a.name then attrsCookedGo f fuel as cur secondary next base seen
+    else (cur, a) :: attrsCookedGo f fuel as cur secondary next base (seen ++ [a.name])
 
 def attrsCooked (f : Forest) (fuel : Nat) (d : Die) : List (Nat × DAttr) :=
-  attrsCookedGo f fuel d.attrs d.off false [] []
+  attrsCookedGo f fuel d.attrs d.off false [] 0 []
 
 /-- `find_attribute` in cooked mode: own attribute, else through specification, else through
     abstract_origin, recursively.  Returns the DIE offset it was found on and the attribute. -/
